@@ -457,6 +457,12 @@ func (b *Board) IsPseudoLegal(m move.Move) bool {
 			}
 		}
 
+		// only a pawn on its seventh rank promotes, and only to a knight..queen
+		if promo := m.Promo(); promo != NoPiece &&
+			(promo < Knight || promo > Queen || RankBB(SeventhRank.FromPerspectiveOf(b.STM))&fromBB == 0) {
+			return false
+		}
+
 		switch Abs(from.File() - to.File()) {
 
 		case 0: // pawn pushing
